@@ -2005,11 +2005,17 @@ class WCS(GWCSAPIMixin):
 
         k = 0
         while len(axes_sets) - 1 > k:
-            for m in range(len(axes_sets) - 1, k, -1):
-                if axes_sets[k].isdisjoint(axes_sets[m]):
-                    continue
-                axes_sets[k] = axes_sets[k].union(axes_sets[m])
-                del axes_sets[m]
+            merged = True
+            while merged:
+                # repeat until no more sets can be merged into set k: a set
+                # skipped as disjoint may overlap with set k after it has grown
+                merged = False
+                for m in range(len(axes_sets) - 1, k, -1):
+                    if axes_sets[k].isdisjoint(axes_sets[m]):
+                        continue
+                    axes_sets[k] = axes_sets[k].union(axes_sets[m])
+                    del axes_sets[m]
+                    merged = True
             k += 1
 
         # create a mapping of output axes to input/image axes groups:
